@@ -3,7 +3,8 @@
    with another dtype — is not modelled (harness/c10.py exercises it). *)
 From Coq Require Import ZArith List String Bool Permutation.
 Import ListNotations.
-From TD Require Import Model.C10_Meta Model.C10_Sched Proofs.C10_MetaP Proofs.C10_SchedP Proofs.C10_TasksP Proofs.C10_GrowP.
+From TD Require Import Model.C10_Meta Model.C10_Sched Model.C10_Fault Model.C10_Refresh Proofs.C10_MetaP Proofs.C10_SchedP Proofs.C10_TasksP
+  Proofs.C10_GrowP Proofs.C10_FaultP Proofs.C10_RefreshP.
 Open Scope string_scope.
 Open Scope list_scope.
 
@@ -108,6 +109,94 @@ Theorem C10_pool_swallows_when_unrepaired :
 Proof. split; [exact pool_call_unrepaired_lemma|repeat split; vm_compute; reflexivity]. Qed.
 Print Assumptions C10_pool_swallows_when_unrepaired.
 
+(* ================================================================== (b') writer tasks that fail *)
+
+(* A task ends ok or fails; the entry point re-raises iff a task whose future it COLLECTED failed.  For every list of
+   submitted tasks (whatever they are, whichever fail), every completion order ts', every state the calling thread left:
+   if every spawned task is collected, the pool call raises exactly when the inline (executor=None) run raises, and the
+   same exception class. *)
+Theorem C10_threaded_raises_iff_sequential_raises : forall (sub : list (task * bool)) (s : state) (ts' : list task),
+  forallb snd sub = true -> Permutation (spawned sub) ts' ->
+  res_err (call_result true sub s ts') = res_err (run_tasks_strict (spawned sub) s).
+Proof. exact threaded_raises_iff_sequential_raises_lemma. Qed.
+Print Assumptions C10_threaded_raises_iff_sequential_raises.
+
+(* ... and when the inline run succeeds, the pool call succeeds with the same mapping, files and directories *)
+Theorem C10_threaded_succeeds_like_sequential : forall (sub : list (task * bool)) (s st : state) (ts' : list task),
+  forallb snd sub = true -> independent (spawned sub) = true -> Permutation (spawned sub) ts' ->
+  run_tasks_strict (spawned sub) s = Ok st ->
+  exists st', call_result true sub s ts' = Ok st' /\ state_equiv st st'.
+Proof. exact threaded_succeeds_like_sequential_lemma. Qed.
+Print Assumptions C10_threaded_succeeds_like_sequential.
+
+(* "collected = spawned" is needed: a failure among the uncollected tasks only is swallowed *)
+Theorem C10_uncollected_failure_is_swallowed : forall (sub : list (task * bool)) (s : state) (ts' : list task) e,
+  first_error (collected sub) = None -> first_error (spawned sub) = Some e ->
+  call_result true sub s ts' = Ok (run_tasks ts' s) /\ run_tasks_strict (spawned sub) s = Raised e.
+Proof. exact uncollected_failure_is_swallowed. Qed.
+Print Assumptions C10_uncollected_failure_is_swallowed.
+
+(* the walk of /repo (TensorDict, lazy stack, tensorclass — `futures += new_futures` —, NonTensorData, NonTensorStack)
+   submits the tasks of [tasks_of] and collects the future of every one of them, in place or not.  The run checks this
+   obligation against the real code: every future the executor hands out vs the futures the entry point inspects. *)
+Theorem C10_walk_collects_every_future : forall o inplace t p,
+  map fst (submitted repo_hands_over o inplace t p) = tasks_of o t p
+  /\ forallb snd (submitted repo_hands_over o inplace t p) = true.
+Proof. intros. split; [apply submitted_fst|now apply submitted_all_collected]. Qed.
+Print Assumptions C10_walk_collects_every_future.
+
+(* hence memmap_ / memmap / memmap_like / save with a pool, under any obstacles on the disk (an existing file with
+   existsok=False, a meta.json that cannot be written) and any entry stored elsewhere: same outcome as without threads *)
+Theorem C10_memmap_fault_threads : forall fl o inplace t ts',
+  res_err (pool_call_f fl false o inplace t ts') = res_err (run_sequential_f fl o inplace t).
+Proof. exact (memmap_fault_threads_lemma fixed_D110). Qed.
+Print Assumptions C10_memmap_fault_threads.
+
+Theorem C10_memmap_fault_threads_state : forall fl o inplace t ts' st,
+  keys_distinct t = true -> Permutation (map (inject fl) (tasks_of o t [])) ts' ->
+  run_sequential_f fl o inplace t = Ok st ->
+  exists st', pool_call_f fl false o inplace t ts' = Ok st' /\ state_equiv st st'.
+Proof. exact (memmap_fault_threads_state_lemma fixed_D110). Qed.
+Print Assumptions C10_memmap_fault_threads_state.
+
+(* the seeded breakage C10-2 as a statement about the model: a tensorclass that keeps the futures of its fields when the
+   save is not in place makes memmap / save / memmap_like return normally where the sequential call raises, with the
+   field described in meta.json and no file for it; in place it is harmless *)
+Definition wit_tc_elsewhere : td :=
+  Node [2] [("a", f32 [2] [1%Z; 2%Z]);
+            ("c", TCls "TCA" [] (Node [2] [("x", Leaf {| lshape := [2]; ldtype := I64; lcells := [1%Z; 2%Z]; lsrc := MMElsewhere |});
+                                            ("tag", NData [2] (PStr "t"))]))].
+Theorem C10_tensorclass_must_hand_over_its_futures :
+  let h := fun inplace : bool => inplace in
+  let ts := tasks_of default_opts wit_tc_elsewhere [] in
+  run_sequential_f [] default_opts false wit_tc_elsewhere = Raised ERuntime
+  /\ res_err (pool_call_f_gen h true [] false default_opts false wit_tc_elsewhere ts) = None
+  /\ mget floc_eqb (["c"; "_tensordict"], FLeaf "x") (fs (run_pool default_opts false wit_tc_elsewhere ts)) = None
+  /\ res_err (pool_call_f_gen h true [] false default_opts true wit_tc_elsewhere ts) = Some ERuntime
+  /\ res_err (pool_call_f [] false default_opts false wit_tc_elsewhere ts) = Some ERuntime.
+Proof. repeat split; vm_compute; reflexivity. Qed.
+Print Assumptions C10_tensorclass_must_hand_over_its_futures.
+
+(* D110 — return_early=True: TensorDictFuture.result() waits for its futures and never looks at their outcome.
+   [fixed_D110] says which side /repo is on; both are proved. *)
+Definition C10_return_early_full_statement : Prop := forall fl o inplace t ts',
+  res_err (pool_call_f_gen repo_hands_over false fl true o inplace t ts') = res_err (run_sequential_f fl o inplace t).
+Theorem C10_return_early_refuted : ~ C10_return_early_full_statement.
+Proof.
+  intro H. specialize (H [] default_opts false wit_tc_elsewhere (tasks_of default_opts wit_tc_elsewhere [])).
+  vm_compute in H. discriminate.
+Qed.
+Print Assumptions C10_return_early_refuted.
+Theorem C10_return_early_partial : forall fl o inplace t ts',
+  first_error (map (inject fl) (tasks_of o t [])) = None ->
+  res_err (pool_call_f_gen repo_hands_over false fl true o inplace t ts') = res_err (run_sequential_f fl o inplace t).
+Proof. exact return_early_partial_lemma. Qed.
+Print Assumptions C10_return_early_partial.
+Theorem C10_return_early_repaired : forall fl o inplace t ts',
+  res_err (pool_call_f_gen repo_hands_over true fl true o inplace t ts') = res_err (run_sequential_f fl o inplace t).
+Proof. exact return_early_repaired_lemma. Qed.
+Print Assumptions C10_return_early_repaired.
+
 (* stated, not proved: the link between the two halves — the files the submitted tasks write, in any order, are the files
    of [encode].  Every generated case evaluates its instance on the extracted model (command "link" of the dispatch). *)
 Definition C10_pool_builds_encode_full_statement : Prop :=
@@ -133,12 +222,35 @@ Definition C10_make_memmap_merge_full_statement : Prop :=
   forall o t ks k l d t' d', valid_root o t = true -> leaf_ok o l = true -> Forall (fun x => reserved x = false) (k :: ks) ->
   encode o t = Ok d -> grow_at ks k l t d = Ok (t', d') -> decode d' = Ok (norm t').
 
+(* ================================================================== (d) load_memmap_ / memmap_refresh_ *)
+
+(* a NonTensorData refreshed from its directory takes the payload that is on disk now (JSON or pickled, any payload) and
+   keeps its own batch size *)
+Theorem C10_refresh_nontensor_payload : forall o bs p bs' p' d,
+  save_over o (NData bs p) empty_dir = Ok d -> load_into d (NData bs' p') = Ok (NData bs' p).
+Proof. exact refresh_ndata_lemma. Qed.
+Print Assumptions C10_refresh_nontensor_payload.
+
+(* loading a TensorDict directory into something that is not a tensordict is refused, never a silent mix *)
+Theorem C10_load_into_refuses_other_kind : forall o bs ents d l,
+  save_over o (Node bs ents) empty_dir = Ok d -> load_into d (Leaf l) = Raised EOther.
+Proof. exact load_into_kind_mismatch. Qed.
+Print Assumptions C10_load_into_refuses_other_kind.
+
+(* stated, not proved: a second mapping of the directory, refreshed after make_memmap* calls through the first one, is
+   the grown tensordict as a mapping.  The correspondence run compares [refresh] / [load_into] with memmap_refresh_ /
+   load_memmap_ of the real code on every generated grow case; C10_ex_refresh below is one instance. *)
+Definition C10_refresh_sees_make_memmap_full_statement : Prop :=
+  forall o t d ks k l t' d' r, valid_root o t = true -> encode o t = Ok d -> grow_at ks k l t d = Ok (t', d') ->
+  refresh d d' = Ok r -> same_mapping r (norm t').
+
 (* ================================================================== non-vacuity *)
 Definition ex_tree : td :=
   Node [2] [("a", Leaf {| lshape := [2; 3]; ldtype := I64; lcells := [0; 1; 2; 3; 4; 5]%Z; lsrc := InMem |});
             ("n", Node [2] [("b", Leaf {| lshape := [2]; ldtype := BOOL; lcells := [1; 0]%Z; lsrc := MMNoFile |}); ("e", Node [2; 1] [])]);
             ("l", Lazy 0 [Node [] [("x", f32 [3] [1; 2; 3]%Z)]; Node [] [("y", f32 [] [7%Z])]]);
-            ("c", TCls "TCA" (Node [2] [("x", f32 [2] [8; 9]%Z); ("tag", NData [2] (PStr "t"))]));
+            ("c", TCls "TCA" [] (Node [2] [("x", f32 [2] [8; 9]%Z); ("tag", NData [2] (PStr "t"))]));
+            ("cc", TCls "TCC" [("y", PNone); ("w", PObj 4); ("z", PStr "s")] (Node [2] [("x", f32 [2] [6; 7]%Z)]));
             ("nt", NData [2] (PDict [("k", PList [PInt 1; PNone])]));
             ("o", NData [2] (PList [PObj 3; PTuple [PInt 1]]));
             ("s", NStack [NData [] (PStr "p"); NData [] (PStr "q")])].
@@ -148,9 +260,32 @@ Example C10_ex_pool_call : pool_call default_opts false wit_elsewhere (tasks_of 
 Proof. vm_compute. reflexivity. Qed.
 Example C10_ex_roundtrip : bind (encode default_opts ex_tree) decode = Ok (norm ex_tree) /\ norm ex_tree <> ex_tree.
 Proof. split; [vm_compute; reflexivity|vm_compute; discriminate]. Qed.
-Example C10_ex_tasks : List.length (tasks_of default_opts ex_tree []) = 17 /\ keys_distinct ex_tree = true
+Example C10_ex_tasks : List.length (tasks_of default_opts ex_tree []) = 20 /\ keys_distinct ex_tree = true
   /\ independent (tasks_of default_opts ex_tree []) = true.
 Proof. repeat split; vm_compute; reflexivity. Qed.
+(* obstacles: an existing x.memmap with existsok=False under the tensorclass, and a root meta.json that is a directory:
+   the sequential call and the pool call (any order) raise the error of the FIRST submitted task that fails *)
+Definition ex_faults : faults := [((["c"; "_tensordict"], FLeaf "x"), ERuntime); (([], FMeta), EIsADirectory)].
+Example C10_ex_faults :
+  run_sequential_f ex_faults default_opts false ex_tree = Raised ERuntime
+  /\ pool_call_f ex_faults false default_opts false ex_tree (rev (map (inject ex_faults) (tasks_of default_opts ex_tree []))) = Raised ERuntime
+  /\ run_sequential_f [(([], FMeta), EIsADirectory)] default_opts true ex_tree = Raised EIsADirectory
+  /\ forallb snd (inject_sub ex_faults (submitted repo_hands_over default_opts false ex_tree [])) = true
+  /\ first_error (map (inject ex_faults) (tasks_of default_opts ex_tree [])) = Some ERuntime
+  /\ first_error (map (inject []) (tasks_of default_opts ex_tree [])) = None.
+Proof. repeat split; vm_compute; reflexivity. Qed.
+(* refresh after make_memmap(("n", "deep", "new"), ...): the second mapping holds exactly the entries a fresh load holds
+   (every kind of entry of ex_tree next to the new nested one), in another order *)
+Example C10_ex_refresh : exists d t' d' es es',
+  encode default_opts ex_tree = Ok d
+  /\ grow_at ["n"; "deep"] "new" {| lshape := [2; 2]; ldtype := I16; lcells := [1; 2; 3; 4]%Z; lsrc := MMElsewhere |} ex_tree d = Ok (t', d')
+  /\ refresh d d' = Ok (Node [2] es) /\ decode d' = Ok (Node [2] es')
+  /\ List.length es = List.length es' /\ Forall (fun kv => sget (fst kv) es = Some (snd kv)) es'
+  /\ refresh d d = decode d.
+Proof.
+  do 5 eexists. split; [vm_compute; reflexivity|]. split; [vm_compute; reflexivity|]. split; [vm_compute; reflexivity|].
+  split; [vm_compute; reflexivity|]. split; [reflexivity|]. split; [repeat constructor|vm_compute; reflexivity].
+Qed.
 Example C10_ex_dependent_tasks_do_not_commute :
   let a := TWrite [] (Ok [(FMeta, CJson JNull)]) [] in let b := TWrite [] (Ok [(FMeta, CJson (JBool true))]) [] in
   independent2 a b = false
